@@ -47,7 +47,9 @@ class Eng(Interp):
         return SV(z3.Bool(name), 'bool')
 
     def sym_val(self, name, tag=None):
-        return SV(z3.Const(name, V), 'val', tag=tag)
+        v = SV(z3.Const(name, V), 'val', tag=tag)
+        v.frozen = True
+        return v
 
     def sym_obj(self, name, cls):
         return Obj(z3.Const(name, V), cls)
